@@ -270,3 +270,39 @@ Proof.
       intros i Hi Hj. apply in_zrange in Hi. rewrite Z2Nat.id in Hi by lia.
       rewrite Forall_forall in IHa. specialize (IHa i Hj). simpl in IHa. lia.
 Qed.
+
+(* ---- multi-packet operations: the packets tile the list ---- *)
+
+Definition packet_values (m : pmsg) : list pval := skipn 4 m.
+Definition packet_count (m : pmsg) : option pval := nth_error m 3.
+Definition packet_start (m : pmsg) : option pval := nth_error m 2.
+
+Lemma stream_tiles : forall num fuel l pos, (List.length l <= fuel)%nat ->
+  flat_map packet_values (stream_msgs fuel num pos l) = l.
+Proof.
+  intros num fuel. induction fuel as [|f IH]; intros l pos H.
+  - destruct l; [reflexivity | simpl in H; lia].
+  - destruct l as [|x t]; [reflexivity|]. cbn [stream_msgs flat_map]. unfold packet_values at 1. cbn [skipn].
+    rewrite IH.
+    + apply firstn_skipn.
+    + rewrite skipn_length. unfold setn_chunk. simpl in *. lia.
+Qed.
+
+(* every packet announces exactly the number of values it carries, at most 1626, at least one, and the packets start
+   at pos, pos + 1626, pos + 2 * 1626 ... *)
+Lemma stream_packets : forall num fuel l pos m k,
+  nth_error (stream_msgs fuel num pos l) k = Some m ->
+  packet_count m = Some (plen (packet_values m)) /\
+  (1 <= List.length (packet_values m) <= setn_chunk)%nat /\
+  packet_start m = Some (PInt (pos + Z.of_nat k * Z.of_nat setn_chunk)).
+Proof.
+  intros num fuel. induction fuel as [|f IH]; intros l pos m k H.
+  - destruct k; discriminate H.
+  - destruct l as [|x t]; [destruct k; discriminate H|]. cbn [stream_msgs] in H. destruct k as [|k].
+    + cbn [nth_error] in H. set (c := firstn setn_chunk (x :: t)) in *. inversion H; subst m.
+      assert (PV : packet_values (PStr "/b_setn" :: num :: PInt pos :: plen c :: c) = c) by reflexivity.
+      rewrite PV. split; [reflexivity|]. split; [|unfold packet_start; cbn [nth_error]; f_equal; f_equal; lia].
+      subst c. rewrite firstn_length. cbn [List.length]. unfold setn_chunk. lia.
+    + cbn [nth_error] in H. destruct (IH _ _ _ _ H) as [A [B C]]. split; [exact A|]. split; [exact B|].
+      rewrite C. f_equal. f_equal. lia.
+Qed.
